@@ -33,16 +33,20 @@ public:
         bool desired{};
         for (;;) {
             for (size_t i = 1;; ++i) {
+                YAKUSHIMA_VERIF_PRE(k_load, o_root_lock, &root_lock_);
                 expected = root_lock_.load(std::memory_order_acquire);
                 if (expected) {
+                    YAKUSHIMA_VERIF_PRE(k_spin, o_root_lock, &root_lock_);
                     if (i >= 10) { break; }
                     _mm_pause();
                     continue;
                 }
                 desired = true;
+                YAKUSHIMA_VERIF_PRE(k_cas, o_root_lock, &root_lock_);
                 if (root_lock_.compare_exchange_weak(expected, desired,
                                                 std::memory_order_acq_rel,
                                                 std::memory_order_acquire)) {
+                    YAKUSHIMA_VERIF_POST(k_cas, o_root_lock, &root_lock_, true, 1);
                     return;
                 }
             }
@@ -51,6 +55,8 @@ public:
     }
 
     void root_unlock() {
+        YAKUSHIMA_VERIF_PRE(k_store, o_root_lock, &root_lock_);
+        YAKUSHIMA_VERIF_POST(k_store, o_root_lock, &root_lock_, false, 1);
         root_lock_.store(false, std::memory_order_release);
     }
 
